@@ -1,6 +1,13 @@
 #!/venv/bin/python
-"""Prints the markdown tables of DESIGN.md sections 16/17 from the recorded
-sensitivity runs (sensitivity.json, sensitivity_seeded*.json, seeded/*/meta.json)."""
+"""Prints the markdown tables of DESIGN.md section 18 from the recorded
+sensitivity runs:
+   sensitivity.json                 hand-made mutants, target checks
+   sensitivity_seeded.json          seeded changes, target (+ expected) checks
+                                    at the full quick budget
+   sensitivity_seeded_matrix.json   seeded changes x all checks at a fraction
+                                    of the quick budget (lower bound)
+   seeded/*/meta.json               what each change is
+"""
 import glob
 import json
 import os
@@ -23,33 +30,55 @@ def hand():
     for r in rows:
         caught = ', '.join('%s (%s)' % (p, sig_short(c))
                            for p, c in r.get('checks', {}).items()
-                           if c['exit'] == 1) or '— (see text)'
+                           if c['exit'] == 1) or '— (equivalent mutant, see 16)'
         print('| %s | %s | %s |' % (r['mutant'],
                                     'pass' if r.get('tests_pass') else 'fail',
                                     caught))
 
 
+def _load(name):
+    p = os.path.join(VERIF, name)
+    if not os.path.exists(p):
+        return {}, None
+    d = json.load(open(p))
+    scale = None
+    if isinstance(d, dict):
+        scale = d.get('scale')
+        d = d['results']
+    return dict((r['mutant'], r) for r in d), scale
+
+
 def seeded():
-    recs = {}
-    for f in sorted(glob.glob(os.path.join(VERIF, 'sensitivity_seeded*.json'))):
-        for r in json.load(open(f)):
-            cur = recs.setdefault(r['mutant'], {})
-            for p, c in r.get('checks', {}).items():
-                cur[p] = c
-    print('| id | breaks | what it needs to manifest (author\'s words, abridged) '
-          '| caught by | not caught by target? |')
+    target, _ = _load('sensitivity_seeded.json')
+    matrix, scale = _load('sensitivity_seeded_matrix.json')
+    print('| id | written against | what it is / what it needs (abridged) | '
+          'full quick budget: caught by | all checks at %s of the quick '
+          'budget: caught by |' % (scale,))
     print('|---|---|---|---|---|')
+    n = n_target = n_any = 0
     for d in sorted(glob.glob(os.path.join(VERIF, 'seeded', '*'))):
         sid = os.path.basename(d)
         meta = json.load(open(os.path.join(d, 'meta.json')))
-        checks = recs.get(sid, {})
-        caught = sorted(p for p, c in checks.items() if c['exit'] == 1)
         tgt = meta['property']
-        miss = '' if tgt in caught else (
-            'target %s quiet: %s' % (tgt, meta.get('note', '')))
-        summ = meta.get('summary') or ''
-        print('| %s | %s | %s | %s | %s |' % (sid, tgt, summ,
-                                              ', '.join(caught) or '—', miss))
+        t = target.get(sid, {}).get('checks', {})
+        m = matrix.get(sid, {}).get('checks', {})
+        tc = sorted(p for p, c in t.items() if c['exit'] == 1)
+        mc = sorted(p for p, c in m.items() if c['exit'] == 1)
+        n += 1
+        n_target += tgt in tc
+        n_any += bool(tc or mc)
+        note = ''
+        if not (tc or mc):
+            note = ' **not caught** — ' + meta.get('note', '')
+        elif tgt not in tc and meta.get('note'):
+            note = ' (' + meta['note'] + ')'
+        print('| %s | %s | %s%s | %s | %s |' % (
+            sid, tgt, meta.get('summary', ''), note,
+            ', '.join(tc) or '—', ', '.join(mc) or '—'))
+    print()
+    print('%d seeded changes; %d caught by the check of the property they '
+          'were written against (full quick budget); %d caught by some '
+          'check.' % (n, n_target, n_any))
 
 
 if __name__ == '__main__':
